@@ -76,6 +76,8 @@ def main(argv=None):
         return 0 if ok else 1
 
     t0 = time.time()
+    if hasattr(mod, "PATH_TIMEOUT_S") and not os.environ.get("VERIF_PATH_TIMEOUT"):
+        R.PATH_TIMEOUT_S = float(mod.PATH_TIMEOUT_S)
     known = load_known(pid)
     obligations = mod.obligations(a.tier)
     if a.only:
